@@ -107,6 +107,8 @@ struct FailLine {
     i: u64,
     failures: Vec<Failure>,
     case: Value,
+    /// hash keys in force when the run started (hashseam.rs)
+    keys: (u64, u64),
 }
 
 pub struct WorkerArgs {
@@ -122,6 +124,19 @@ pub struct WorkerArgs {
 }
 
 pub fn worker<W: World>(a: &WorkerArgs) -> i32 {
+    // the whole lane runs on one thread whose hash keys derive from (seed, world/mode, first run of the lane)
+    let stream = format!("{}/{}", W::NAME, a.mode);
+    crate::hashseam::arm(crate::hashseam::lane_seed(a.seed, &stream, a.start));
+    let r = std::thread::scope(|s| {
+        std::thread::Builder::new()
+            .stack_size(crate::hashseam::RUN_STACK)
+            .spawn_scoped(s, || worker_lane::<W>(a))
+            .map(|h| h.join().unwrap_or(2))
+    });
+    r.unwrap_or(2)
+}
+
+fn worker_lane<W: World>(a: &WorkerArgs) -> i32 {
     let known = load_known();
     let open = open_set(&known);
     let stdout = std::io::stdout();
@@ -133,14 +148,15 @@ pub fn worker<W: World>(a: &WorkerArgs) -> i32 {
     let mut i = a.start;
     let mut first = true;
     while i < a.end {
+        let mut rng = Rng::new(a.seed, &stream, i);
+        let case = W::generate(&mut rng, &a.prop, &a.mode, a.tier);
+        let keys = crate::hashseam::current_keys();
         if first || a.mark_every == 1 || last_mark.elapsed() > Duration::from_millis(20) {
-            let _ = writeln!(out, "B {i}");
+            let _ = writeln!(out, "B {i} {} {}", keys.0, keys.1);
             let _ = out.flush();
             last_mark = Instant::now();
             first = false;
         }
-        let mut rng = Rng::new(a.seed, &stream, i);
-        let case = W::generate(&mut rng, &a.prop, &a.mode, a.tier);
         match run_case::<W>(&case, &a.prop, &a.mode, a.tier, false, &open) {
             Err(h) => {
                 let _ = writeln!(out, "H {i} {}", h.replace('\n', " "));
@@ -183,6 +199,7 @@ pub fn worker<W: World>(a: &WorkerArgs) -> i32 {
                         i,
                         failures: ctx.failures.clone(),
                         case: serde_json::to_value(&case).unwrap(),
+                        keys,
                     };
                     let _ = writeln!(out, "F {}", serde_json::to_string(&fl).unwrap());
                 }
@@ -212,8 +229,8 @@ pub struct BatchResult {
     pub fps: HashSet<u64>,
     pub sim_ns: u128,
     pub known: BTreeMap<String, (u64, String)>,
-    pub fails: Vec<(u64, Vec<Failure>, Value)>,
-    pub deaths: Vec<(u64, String)>,
+    pub fails: Vec<(u64, Vec<Failure>, Value, (u64, u64))>,
+    pub deaths: Vec<(u64, String, Option<(u64, u64)>)>,
     pub samples: Vec<Value>,
     pub hashes: BTreeMap<u64, u64>,
     pub harness_errors: Vec<String>,
@@ -350,6 +367,7 @@ pub fn run_batch(b: &Batch, prop: &str, tier: Tier, seed: u64, hashes: bool) -> 
                 *slot.child.lock().unwrap() = Some(child);
                 let reader = BufReader::with_capacity(1 << 16, stdout);
                 let mut last_begin: Option<u64> = None;
+                let mut last_keys: Option<(u64, u64)> = None;
                 let mut finished = false;
                 let mut harness = false;
                 for line in reader.lines() {
@@ -358,7 +376,14 @@ pub fn run_batch(b: &Batch, prop: &str, tier: Tier, seed: u64, hashes: bool) -> 
                     let (tag, rest) = line.split_at(1.min(line.len()));
                     let rest = rest.trim_start();
                     match tag {
-                        "B" => last_begin = rest.parse().ok(),
+                        "B" => {
+                            let mut it = rest.split(' ');
+                            last_begin = it.next().and_then(|x| x.parse().ok());
+                            last_keys = match (it.next().and_then(|x| x.parse::<u64>().ok()), it.next().and_then(|x| x.parse::<u64>().ok())) {
+                                (Some(a), Some(b)) => Some((a, b)),
+                                _ => None,
+                            };
+                        }
                         "R" => {
                             let mut it = rest.split(' ');
                             if let (Some(i), Some(h)) = (it.next(), it.next()) {
@@ -369,7 +394,7 @@ pub fn run_batch(b: &Batch, prop: &str, tier: Tier, seed: u64, hashes: bool) -> 
                         }
                         "F" => {
                             if let Ok(fl) = serde_json::from_str::<FailLine>(rest) {
-                                result.lock().unwrap().fails.push((fl.i, fl.failures, fl.case));
+                                result.lock().unwrap().fails.push((fl.i, fl.failures, fl.case, fl.keys));
                             }
                         }
                         "C" => {
@@ -439,7 +464,7 @@ pub fn run_batch(b: &Batch, prop: &str, tier: Tier, seed: u64, hashes: bool) -> 
                         .lock()
                         .unwrap()
                         .deaths
-                        .push((at, if hung { format!("hang: {why}") } else { format!("abort: {why}") }));
+                        .push((at, if hung { format!("hang: {why}") } else { format!("abort: {why}") }, last_keys));
                     deaths_here += 1;
                     // a lane that keeps dying has given its evidence: a hang costs a whole watchdog period twice
                     let max_deaths = if hung { 2 } else { 12 };
@@ -493,12 +518,27 @@ pub struct Replay {
     pub min_budget_exhausted: bool,
     pub case: Value,
     pub components: Value,
+    /// keys of the library's hash maps when the run started (hashseam.rs), decimal; replay starts a thread with them
+    #[serde(default)]
+    pub hash_keys: Option<(u64, u64)>,
+}
+
+/// Hash keys a replay of `r` starts with: the recorded ones, or (files written before the seam existed) keys
+/// derived from the run's identity.
+fn keys_of(r: &Replay) -> (u64, u64) {
+    r.hash_keys.unwrap_or_else(|| {
+        let h = crate::hashseam::lane_seed(r.seed, &format!("{}/{}", r.world, r.mode), r.run);
+        (h, h.rotate_left(32) ^ 0x9E37_79B9_7F4A_7C15)
+    })
 }
 
 pub fn replay_in_process<W: World>(r: &Replay) -> Result<Option<Failure>, String> {
     let known = load_known();
     let open = open_set(&known);
     let case: W::Case = serde_json::from_value(r.case.clone()).map_err(|e| format!("bad case in replay file: {e}"))?;
+    // same hash order as the run that failed
+    crate::hashseam::selfcheck()?;
+    crate::hashseam::set_replay_keys(Some(keys_of(r)));
     let ctx = run_case::<W>(&case, &r.property, &r.mode, Tier::parse(&r.tier), std::env::var("VERIF_TRACE").is_ok(), &open)?;
     if let Some(lines) = &ctx.log_lines {
         for l in lines {
@@ -607,7 +647,7 @@ pub fn triage<W: World>(
     let max_per_class = 2usize;
     let mut per_class: BTreeMap<String, usize> = BTreeMap::new();
 
-    for (i, failures, case_v) in &res.fails {
+    for (i, failures, case_v, keys) in &res.fails {
         let mut seen_here: BTreeSet<String> = BTreeSet::new();
         for f in failures {
             if f.prop != prop {
@@ -647,6 +687,7 @@ pub fn triage<W: World>(
                 min_budget_exhausted: false,
                 case: serde_json::to_value(&case).unwrap(),
                 components: comps.clone(),
+                hash_keys: Some(*keys),
             };
             let path = format!(
                 "{}/replays/{prop}-{}-{}-s{seed}-r{i}-{}.json",
@@ -704,7 +745,7 @@ pub fn triage<W: World>(
     }
 
     // child deaths: the generated case is the replay (not minimised in-process)
-    for (i, why) in &res.deaths {
+    for (i, why, keys) in &res.deaths {
         let n = per_class.entry("abort".to_string()).or_insert(0);
         if *n >= max_per_class {
             continue;
@@ -729,6 +770,7 @@ pub fn triage<W: World>(
             min_budget_exhausted: false,
             case: serde_json::to_value(&case).unwrap(),
             components: comps.clone(),
+            hash_keys: *keys,
         };
         let path = format!("{}/replays/{prop}-{}-{}-s{seed}-r{i}-{clause}.json", verif_dir(), W::NAME, b.mode);
         let _ = std::fs::create_dir_all(format!("{}/replays", verif_dir()));
@@ -887,7 +929,11 @@ pub fn minimise_file<W: World>(path: &str, r: &Replay) -> i32 {
         detail: r.detail.clone(),
         hint: Value::Null,
     };
-    // re-run first to recover the hint of the failure
+    // re-run first to recover the hint of the failure (under the hash order of the run that failed)
+    if crate::hashseam::selfcheck().is_err() {
+        return 2;
+    }
+    crate::hashseam::set_replay_keys(Some(keys_of(r)));
     let tier = Tier::parse(&r.tier);
     let f = match fails_same::<W>(&case, &r.property, &r.mode, tier, &f.class(), &open) {
         Ok(Some(ff)) => ff,
